@@ -181,15 +181,12 @@ Definition goja_compat (ext : bool) (d : desc) (cur : option prop) : bool :=
     else true
   end.
 
-(* builtin_object.go:114 toValueProp applied to the trap's result object (after complete() the
-   getter/setter are re-read from the object): the property is an accessor only if a getter or a
-   setter FUNCTION is present; {get: undefined, set: undefined} becomes a data property whose
-   value is nil (reported as undefined) *)
+(* builtin_object.go:114 toValueProp applied to the trap's result object (fix 178fa38): an accessor
+   exactly when a get or set field is present, even if both are undefined *)
 Definition goja_to_prop (d : desc) : prop :=
-  match od (d_get d) None, od (d_set d) None with
-  | None, None => PData (od (d_value d) vundef) (ob (d_writable d)) (ob (d_enum d)) (ob (d_conf d))
-  | g, s => PAcc g s (ob (d_enum d)) (ob (d_conf d))
-  end.
+  if isSome (d_get d) || isSome (d_set d)
+  then PAcc (od (d_get d) None) (od (d_set d) None) (ob (d_enum d)) (ob (d_conf d))
+  else PData (od (d_value d) vundef) (ob (d_writable d)) (ob (d_enum d)) (ob (d_conf d)).
 
 (* proxy.go:509 proxyGetOwnPropertyDescriptor *)
 Definition goja_gopd (r : gopdRes) (cur : option prop) (ext : bool) : res :=
@@ -549,18 +546,6 @@ Definition spec_check (c : call) (t : target) : res :=
 
 Definition spec_proxy_op (revoked : bool) (c : call) (t : target) : res :=
   if revoked then RTypeError else spec_check c t.
-
-(* a result descriptor that is an accessor with neither a getter nor a setter function: goja
-   reports it as a data property (toValueProp) *)
-Definition undef_accessor (d : desc) : bool :=
-  is_accessor d && negb (isSome (od (d_get d) None)) && negb (isSome (od (d_set d) None)).
-
-(* the only region where goja still departs from the spec (open finding F6c) *)
-Definition call_in_f6c (c : call) : bool :=
-  match c with
-  | CGopd k (GDesc d) => undef_accessor d
-  | _ => false
-  end.
 
 (* ======================================================================================== *)
 (* the target's own semantics (ordinary object, 10.1), used to define honest handlers        *)
